@@ -120,6 +120,15 @@ theorem single_write_per_record :
     Gen.fileUsesSaveReport = ["file.Close", "file.Write"] ∧
     Gen.fileUsesSaveEquipment = ["file.Close", "file.Write"] ∧
     Gen.fileUsesSaveStats = ["file.Close", "file.Write"] := by decide
+/-- The client's history store reads and writes at explicit offsets only: the reporting loop and every
+running sync round share one file handle, and positional I/O is what keeps them from moving each other's
+file position. -/
+theorem history_positional_io :
+    Gen.historyUsesLoad = ["file.ReadAt"] ∧ Gen.historyUsesSave = ["file.WriteAt"] := by decide
+/-- The sync reply is read with `io.ReadFull` (length prefix, then the body): a reply that arrives in several
+TCP segments is still read whole. -/
+theorem sync_reply_read_full :
+    Gen.syncConnUses = ["conn.Close", "conn.Write", "arg:ReadFull", "arg:ReadFull"] := by decide
 /-- Registration: the file write precedes adopting the key. -/
 theorem save_gca_key_order : Gen.saveGCAKeyOrder =
     ["WriteFile", "=server.gcaPubkey", "=server.gcaPubkeyAvailable"] := by decide
